@@ -244,23 +244,8 @@ impl<'a> Gen<'a> {
         // F18: zero-argument `assert()` in expression position
         let avoid_zero = self.target == Target::Assert && global && !self.defect();
         let min = if avoid_zero { 1 } else { 0 };
-        let mut args = self.args(depth, min);
-        if self.target == Target::Profiling && global && !self.defect() {
-            // F28: exactly one kept argument in expression position — use pure arguments only, or two kept
-            let _ = single_ok;
-            let pure_only = self.rng.chance(1, 2);
-            args = if pure_only {
-                (0..self.rng.below(3)).map(|_| self.pure_arg()).collect()
-            } else {
-                vec!["get1()".to_owned(), self.effect_arg(depth)]
-            };
-        }
-        if self.target == Target::Assert && global && args.len() == 1 && !self.defect() {
-            // F26: a lone argument that is itself a matched call
-            if args[0].starts_with("assert(") {
-                args[0] = format!("({})", args[0]);
-            }
-        }
+        let args = self.args(depth, min);
+        let _ = single_ok;
         if args.len() == 1 && self.rng.chance(1, 12) {
             match args[0].as_str() {
                 "'s'" => {
@@ -282,18 +267,7 @@ impl<'a> Gen<'a> {
         let callee = self.callee();
         let global = self.callee_is_global();
         let mut args = self.args(0, 0);
-        if global && !self.defect() {
-            // F26: the only kept argument is itself a matched call
-            let kept_calls: Vec<usize> = args
-                .iter()
-                .enumerate()
-                .filter(|(_, a)| a.starts_with("assert(") || a.starts_with("(assert(") || a.starts_with("debug.profile") || a.starts_with("(debug.profile"))
-                .map(|(i, _)| i)
-                .collect();
-            if !kept_calls.is_empty() {
-                args.push("get2()".to_owned());
-            }
-        }
+        let _ = global;
         self.used.insert("position:statement");
         if args.len() == 1 && args[0] == "'s'" && self.rng.chance(1, 6) {
             self.line(&format!("{}'s'", callee));
@@ -426,13 +400,13 @@ impl<'a> Gen<'a> {
                 self.line(&format!("local k{} = {{ {} = 2 }}", self.counter, name));
             }
             9 | 10 => {
-                // prefix position: F19 under a shadowing local
+                // prefix position, also under a shadowing local (F19, fixed)
                 let indexable = match shadow {
                     None => prefix_ok,
                     Some(Shadow::Table) => true,
                     Some(_) => false,
                 };
-                if indexable && (shadow.is_none() || self.defect()) {
+                if indexable {
                     self.used.insert(if shadow.is_none() { "read:prefix-position" } else { "read:prefix-position-shadowed" });
                     if is_string && shadow.is_none() && self.rng.chance(1, 2) {
                         self.line(&format!("emit({}:len())", name));
@@ -759,9 +733,9 @@ impl<'a> Gen<'a> {
             return;
         }
         self.budget -= 1;
-        if !matches!(self.target, Target::Inject { .. }) && self.callee_is_global() && self.defect() && self.rng.chance(1, 6) {
-            // F31: a bare `local _ = …` produced by the rule shadows the program's own `_`
-            self.used.insert("defect:underscore-read-after-removed-call");
+        if !matches!(self.target, Target::Inject { .. }) && self.callee_is_global() && self.rng.chance(1, 14) {
+            // F31 (fixed): a bare `local _ = …` produced by the rule would shadow the program's own `_`
+            self.used.insert("underscore-read-after-removed-call");
             let callee = self.callee();
             self.line("local _ = 9");
             self.line(&format!("{}(t.x)", callee));
